@@ -2,6 +2,7 @@ package main
 
 import (
 	"encoding/hex"
+	"fmt"
 	"math/rand"
 
 	"verif/harness/synth"
@@ -87,3 +88,100 @@ func fixedMatchHex(length, dist int) string {
 	synth.Fixed(&w, true, []synth.Tok{synth.Match(length, dist)})
 	return hex.EncodeToString(w.Bytes())
 }
+
+// edgePatterns: what one decoding-table lookup can yield when the codes are two to four bits
+// long: up to three literals, or literals followed by a length symbol.
+var edgePatterns = []string{"L258", "LL258", "LL257", "L257", "258", "LLL", "L3", "LL3"}
+
+// edgeStream builds a dynamic block with two- to four-bit codes (so that the Reader packs
+// several symbols into one decoding-table entry) in which the token pattern pat starts at
+// output offset pos exactly: 1+lead literals, copies of length 258 from distance 1, literals up
+// to pos (lead shifts how these literals are grouped into table entries), the pattern, three more literals, end of block; then a final block (tail "stored" or
+// "fixed"), or the block itself is final (tail "final").  It returns the stream and the
+// expected output.
+func edgeStream(pat string, pos, lead int, tail string) ([]byte, []byte, int, error) {
+	lit := make([]uint8, 286)
+	lit['a'], lit['b'], lit[285], lit[256], lit[284], lit[257] = 2, 2, 2, 3, 4, 4
+	dist := make([]uint8, 30)
+	dist[0], dist[1] = 1, 1
+	if pos < 600 {
+		return nil, nil, 0, fmt.Errorf("edgeStream: pos %d too small", pos)
+	}
+	toks := []synth.Tok{synth.Lit('a')}
+	for i := 0; i < lead; i++ {
+		toks = append(toks, synth.Lit('a'))
+	}
+	k := (pos-1-lead)/258 - 1
+	for i := 0; i < k; i++ {
+		toks = append(toks, synth.Match(258, 1))
+	}
+	for n := 1 + lead + 258*k; n < pos; n++ {
+		toks = append(toks, synth.Lit('a'))
+	}
+	for i := 0; i < len(pat); {
+		switch {
+		case pat[i] == 'L':
+			toks = append(toks, synth.Lit('b'))
+			i++
+		case pat[i:] == "258":
+			toks = append(toks, synth.Match(258, 1))
+			i += 3
+		case pat[i:] == "257":
+			toks = append(toks, synth.Match(257, 2))
+			i += 3
+		case pat[i:] == "3":
+			toks = append(toks, synth.Match(3, 1))
+			i++
+		default:
+			return nil, nil, 0, fmt.Errorf("edgeStream: pattern %q", pat)
+		}
+	}
+	// where the pattern starts in the compressed bytes
+	var pre synth.BitWriter
+	nPre := len(toks) - map[string]int{"L258": 2, "LL258": 3, "LL257": 3, "L257": 2, "258": 1, "LLL": 3, "L3": 2, "LL3": 3}[pat]
+	if err := synth.Dynamic(&pre, false, lit, dist, toks[:nPre], synth.DynOptions{UseRepeat: true}); err != nil {
+		return nil, nil, 0, err
+	}
+	patByte := int(pre.BitLen()-3) / 8 // (without the end-of-block code that Dynamic appended)
+	// enough input behind the pattern for the fast decode loops to be the ones that meet it
+	for _, ch := range "abaabbabaaba" {
+		toks = append(toks, synth.Lit(byte(ch)))
+	}
+	var w synth.BitWriter
+	if err := synth.Dynamic(&w, tail == "final", lit, dist, toks, synth.DynOptions{UseRepeat: true}); err != nil {
+		return nil, nil, 0, err
+	}
+	out := synth.Expand(nil, toks)
+	switch tail {
+	case "stored":
+		t := []byte("the tail of the stream, a stored block of some length")
+		synth.Stored(&w, true, t)
+		out = append(out, t...)
+	case "fixed":
+		var ft []synth.Tok
+		for _, ch := range "a final fixed block with thirty-odd literals" {
+			ft = append(ft, synth.Lit(byte(ch)))
+		}
+		synth.Fixed(&w, true, ft)
+		out = append(out, "a final fixed block with thirty-odd literals"...)
+	}
+	return w.Bytes(), out, patByte, nil
+}
+
+// finalFixedLiterals: a stream that consists of ONE final fixed-Huffman block of n literals,
+// m of them with nine-bit codes (the others eight), so that the end-of-block
+// code ends at every bit position of the last byte as m varies.
+func finalFixedLiterals(n, m int) []byte {
+	toks := make([]synth.Tok, n)
+	for i := range toks {
+		toks[i] = synth.Lit(byte('a' + i%7))
+		if i >= n-1-m && i < n-1 {
+			toks[i] = synth.Lit(byte(200 + i%5)) // 144..255: nine bits
+		}
+	}
+	var w synth.BitWriter
+	synth.Fixed(&w, true, toks)
+	return w.Bytes()
+}
+
+func hexOf(b []byte) string { return hex.EncodeToString(b) }
